@@ -15,7 +15,7 @@ ALSO = {'C01_1': ['C09'], 'C01_2': ['C02', 'C03'], 'C01_3': ['C05'], 'C04_1': ['
         'C06_r2_1': ['C05'], 'C10_r2_1': ['C08'], 'C12_r2_3': ['C02'], 'C14_r2_2': ['C15'], 'C15_r2_2': ['C14'],
         'C01_r3_1': ['C08'], 'C01_r3_2': ['C03'], 'C01_r3_3': ['C05'], 'C04_r3_3': ['C02'], 'C19_r2_4': ['C09'],
         'C06_r3_1': ['C05'], 'C10_r3_1': ['C08'], 'C10_r3_2': ['C13'], 'C11_r3_1': ['C02'],
-        'C01_r4_1': ['C09'], 'C01_r4_2': ['C05'], 'C05_r4_3': ['C07']}
+        'C01_r4_1': ['C09'], 'C01_r4_2': ['C05'], 'C05_r4_3': ['C07'], 'C01_r4_3': ['C03']}
 
 
 def seeds():
